@@ -58,7 +58,7 @@ func pureReplay(v *Violation) int {
 func init() {
 	Checks["C15"] = &CheckDef{Prop: "C15", Direct: pureDirect("C15"),
 		Technique: "exhaustive enumeration of the complete finite input domain of each translation table against an independent reference table (all 2^16 inotify masks, 2^11x2 kqueue fflags, 2^13 Windows masks, all actions, all 2^9 op subsets x follow/no-follow with the kernel-side mask read back from fdinfo)",
-		Rule:      "E4: a state is one input (native mask / requested op set / action code); a transition is one evaluation of the real function (inotify: through the verif hook and a real AddWith on the real kernel; kqueue, Windows, FEN: function source extracted from the working tree by vxgen)",
+		Rule:      "E4: a state is one input (native mask / requested op set / action code); a transition is one evaluation of the real function (inotify: through the verif hook and a real AddWith on the real kernel; kqueue: the full transplant of that back end, verif/gen/kq; Windows, FEN: function source extracted from the working tree by vxgen)",
 		Assume:    []string{"kqueue/Windows constants taken from golang.org/x/sys v0.13.0", "reference tables written from the documentation of Op (fsnotify.go) and inotify(7)"}}
 	Checks["C16"] = &CheckDef{Prop: "C16", Direct: pureDirect("C16"),
 		Technique: "exhaustive enumeration of Op.Has/Event.Has over the stated Op domain squared, Op.String over all 2^16 low values plus every defined subset x every high bit, Event.String over a name x old-name x op product, against an independent reference",
